@@ -19,7 +19,8 @@
 (***************************************************************************)
 EXTENDS TreeBinOps
 
-CONSTANTS InitLists   \* set of sequences of keys: the lists handed to TreeBin::new
+CONSTANTS InitLists,  \* set of sequences of keys: the lists handed to TreeBin::new
+          TREEONLY    \* explore the tree part alone
 
 VARIABLES T, root, first, present, dead
 vars == <<T, root, first, present, dead>>
@@ -27,16 +28,26 @@ vars == <<T, root, first, present, dead>>
 Init ==
   \E lst \in InitLists :
     LET b == BuildFrom(ListNodes(lst), 0, lst, 1) IN
-    /\ T = b[1] /\ root = b[2] /\ first = lst[1]
+    /\ T = (IF TREEONLY THEN [id \in DOMAIN b[1] |-> [b[1][id] EXCEPT !.prev = 0, !.next = 0]] ELSE b[1])
+    /\ root = b[2] /\ first = (IF TREEONLY THEN 0 ELSE lst[1])
     /\ present = {lst[i] : i \in 1..Len(lst)} /\ dead = FALSE
 
+\* TREEONLY = TRUE explores the tree part alone (the traversal list and the tree algorithms do not influence each other):
+\* the list fields are kept at 0, so the state space is that of the tree shapes.  (A VIEW would do the same, but TLC 1.8
+\* fails to write un-fingerprinted function values to its disk queue once the queue spills.)
+Strip(t) == [id \in DOMAIN t |-> [t[id] EXCEPT !.prev = 0, !.next = 0]]
 Insert(k) ==
   /\ ~dead /\ k \notin present /\ root # 0
-  /\ LET r == InsertOp(T, root, first, k) IN T' = r[1] /\ root' = r[2] /\ first' = r[3]
+  /\ LET r == InsertOp(T, root, first, k) IN
+     /\ T' = (IF TREEONLY THEN Strip(r[1]) ELSE r[1]) /\ root' = r[2] /\ first' = (IF TREEONLY THEN 0 ELSE r[3])
   /\ present' = present \cup {k} /\ UNCHANGED dead
 Remove(p) ==
   /\ ~dead /\ p \in present
-  /\ LET r == RemoveOp(T, root, first, p) IN T' = r[1] /\ root' = r[2] /\ first' = r[3] /\ dead' = r[4]
+  /\ LET \* (tree only: give p a successor in the absent list, so that "the list became empty" is answered from `present`)
+         other == IF present = {p} THEN 0 ELSE CHOOSE q \in present : q # p
+         tin == IF TREEONLY THEN [T EXCEPT ![p].next = other] ELSE T
+         r == RemoveOp(tin, root, IF TREEONLY THEN p ELSE first, p) IN
+     /\ T' = (IF TREEONLY THEN Strip(r[1]) ELSE r[1]) /\ root' = r[2] /\ first' = (IF TREEONLY THEN 0 ELSE r[3]) /\ dead' = r[4]
   /\ present' = present \ {p}
 
 Next == \E k \in Keys : Insert(k) \/ Remove(k)
@@ -61,7 +72,7 @@ RBInvariants ==
       ls == ListFrom(T, first, Cardinality(Keys) + 1)
   IN
   /\ SeqSet(io) = present /\ Len(io) = Cardinality(present)          \* tree set = present keys
-  /\ SeqSet(ls) = present /\ Len(ls) = Cardinality(present)          \* list set = present keys
+  /\ (~TREEONLY => (SeqSet(ls) = present /\ Len(ls) = Cardinality(present)))   \* list set = present keys
   /\ root # 0 /\ T[root].parent = 0 /\ ~T[root].red
   /\ \A i \in 1..(Len(io) - 1) : Less(io[i], io[i + 1])              \* ordered by (hash, key)
   /\ \A x \in present :
@@ -70,7 +81,7 @@ RBInvariants ==
        /\ T[x].red => (~IsRed(T, T[x].left) /\ ~IsRed(T, T[x].right))
        /\ T[x].next # 0 => T[T[x].next].prev = x
        /\ T[x].prev # 0 => T[T[x].prev].next = x
-  /\ T[first].prev = 0
+  /\ (~TREEONLY => T[first].prev = 0)
   /\ BlackHeight(T, root) # 0
 LookupsOK ==
   ~dead => \A k \in Keys :
